@@ -185,15 +185,10 @@ def one(case, acc):
                 return v(mech, 'the dialogue never reached a shell prompt')
             if o['auto_prompt_reset'] and not pset:
                 return v('true-without-unique-prompt-set', 'the shell never accepted a prompt-setting command')
-            # prompt() must delimit each command's output exactly
-            if not o['auto_prompt_reset']:
-                prompt = next(st[2] for st in case['steps'] if st[0] == 'shell')
-                s.PROMPT = re.escape(prompt)
-                s.sendline('')
-                s.prompt(timeout=2)
-                s.prompt(timeout=0.3)
+            # with the unique prompt set, prompt() must delimit each command's output exactly
+            # (the property states this for the reset-enabled case only)
             T = (lambda x: x) if o['enc'] else (lambda x: x.encode())
-            for k in range(3):
+            for k in range(3 if o['auto_prompt_reset'] else 0):
                 ident = 'ID%d%s' % (k, os.urandom(4).hex())
                 s.sendline('echo ' + ident)
                 acc.count('prompt_delimit_checks')
